@@ -500,6 +500,7 @@ def boundary_histories():
     base = [ns('p', 'u1'), st(a_p)]
     h.append([('parse', (), base), ('insns', 'p', 'u2', 1, 0)])
     h.append([('parse', (), base), ('insns', 'p', 'u2', 0, 0)])                 # clean-up raises
+    h.append([('parse', (), [ns('q', 'u'), ns('p', 'u2'), st([T(P('q'), 'x')])]), ('insns', 'p', 'u', None, 1)])
     h.append([('parse', (), [ns('p', 'u1'), st([T('N', 'a')])]), ('insns', 'p', 'u2', 0, 0)])
     h.append([('parse', (), base), ('insns', 'q', 'u1', 0, 0), ('insns', 'q', 'u1', 1, 0), ('delns', 'q'),
               ('delns', 'zz'), ('delrule', 0)])
